@@ -16,12 +16,13 @@ NSHARDS = 8
 
 CFG = {
     "quick": [
-        ("udp", dict(Socks='{"udp"}', Lites="{FALSE, TRUE}",
+        ("udp", dict(Socks='{"udp"}', Lites="{FALSE}",
                      UserAlpha='{"ok", "missing", "wrong"}',
                      MiAlpha='{"ok", "missing", "wrongKey", "remoteKey", "garbled"}',
                      FpAlpha='{"ok", "none"}'), (300, 8)),
-        # shared single-port UDP socket: the demux in front of the agent adds routing state (9x the states)
-        ("mux", dict(Socks='{"mux"}', Lites="{FALSE}",
+        # shared single-port UDP socket: the demux in front of the agent adds routing state (9x the states);
+        # enable_ice_lite (no effect on the ICE transport in WebRTC mode) is varied across the two entries
+        ("mux", dict(Socks='{"mux"}', Lites="{TRUE}",
                      UserAlpha='{"ok", "missing", "wrong"}',
                      MiAlpha='{"ok", "missing", "wrongKey"}',
                      FpAlpha='{"ok"}'), (100, 8)),
